@@ -269,6 +269,12 @@ def run(ck):
                 # may convert other things, e.g. the unitaries)
                 nc = [c for c in p.calls if c[0].endswith("cplx.numpy") and "rotate_rho_probs" in str(c[3])]
                 if len(nc) != 1:
+                    # ... or the one conversion, in a helper, whose argument is the matrix itself (the model's rho / the entries
+                    # selected from the given rho)
+                    rres = [c_[6] for c_ in p.calls if c_[0] == "DensityMatrix.rho" and c_[6] is not None]
+                    nc = [c for c in p.calls if c[0].endswith("cplx.numpy") and within(c, "rotate_rho_probs") and c[7].get("x") is not None
+                          and (c[7].get("x") in rres or (which != "model" and bool(c[7].get("x").syms() & {"Rr", "Ri"})))]
+                if len(nc) != 1:
                     ck.undecided("C04.R2", inst + ":matrix [%s]" % pn, rrp.site(), "the matrix multiplied into the factor tensor is not converted by one cplx.numpy call")
                     continue
                 mt = nc[0][7].get("x")
@@ -336,6 +342,10 @@ def run(ck):
                     ck.check(tot.shape == (2,) + tuple(terms_v.shape[2:]), "C04.R2", inst + ":sum over the expansion axis only [%s]" % _c(p), rpi.site(),
                              "summand %s -> result %s: the reduction does not remove exactly the expansion axis" % (terms_v.shape, tot.shape))
                 nc = [c for c in p.calls if c[0].endswith("cplx.numpy") and "rotate_psi_inner_prod" in str(c[3])]
+                if not nc:
+                    pres = [c_[6] for c_ in p.calls if c_[0].endswith(".psi") and c_[6] is not None]
+                    nc = [c for c in p.calls if c[0].endswith("cplx.numpy") and within(c, "rotate_psi_inner_prod") and c[7].get("x") is not None
+                          and (c[7].get("x") in pres or (which != "model" and bool(c[7].get("x").syms() & {"PSIr", "PSIi"})))]
                 if which == "model" and nc:
                     pc = [c for c in p.calls if c[0].endswith(".psi") and within(c, "rotate_psi_inner_prod")]
                     vt_ = v.term if isinstance(v, VTens) else None
@@ -706,6 +716,13 @@ def run(ck):
                     continue
                 sy = t_.syms()
                 used = {b for b in "XY" if any(n_.startswith("E" + b) for n_ in sy)}
+                # a value written through something the analyser did not follow (the result of a tensor method it does not know, which
+                # may be a view of the state) may be where the unitaries went: then nothing is decided
+                lostw = [e for e in p.effects if e.kind == "write" and (getattr(e.obj, "maybe_view", False) or getattr(e.obj, "maybe_copy", False))]
+                own = any(n_.startswith("u") or "unitar" in n_ for n_ in sy)
+                if used != {"X", "Y"} and lostw and not own:
+                    ck.undecided("C04.R6", inst + ":the given X and Y are the ones applied [%s]" % _c(p), fn_.site(), "the rotation is written through a value the analyser does not follow (%s)" % lostw[0].detail)
+                    continue
                 ck.check(used == {"X", "Y"}, "C04.R6", inst + ":the given X and Y are the ones applied [%s]" % _c(p), fn_.site(),
                          "with unitaries={X: EX, Y: EY, Z: EZ} and basis 'XY' the result does not depend on the given %s: the state's own dictionary is used for a letter the given dictionary defines"
                          % " and ".join("E" + b for b in "XY" if b not in used))
@@ -806,6 +823,31 @@ def _kron_instance(ck, prog, km, ns):
                 if len(us) != 1:
                     bad = "the left factor of a block product is not one of the given matrices: %r" % (a[0],)
                     break
+                if (len(spec) in (1, 2) and isinstance(spec[0], (tuple, list)) and len(spec[0]) == 4 and tuple(spec[0][:3]) == ("op", "unflatten", 1) and len(spec[0][3]) == 3
+                        and (len(spec) == 1 or (tuple(spec[1][:2]) == ("op", "permute") and len(spec[1]) == 3))):
+                    # the row axis split into (left, site, right) and the site axis moved next to last: one matrix product for all the
+                    # blocks of the site - the pairs {j, j + right} with digit 0 at that position
+                    dims_ = tuple(spec[0][3])
+                    rd_ = T.app("unflatten", base, 1, dims_)
+                    order_ = tuple(spec[1][2]) if len(spec) == 2 else None
+                    if order_ is not None:
+                        rd_ = T.app("permute", rd_, order_)
+                    if a[1] != rd_:
+                        bad = "a block product does not read the block it overwrites"
+                        break
+                    try:
+                        l_, n_, r_ = (int(d_) for d_ in dims_)
+                    except (TypeError, ValueError):
+                        bad = "split sizes %r are not concrete" % (dims_,)
+                        break
+                    site_ax_ok = (order_ is None and False) or (order_ is not None and len(order_) >= 2 and order_[-2] == 2)
+                    if n_ != 2 or l_ * n_ * r_ != L or not site_ax_ok:
+                        bad = "row axis split as %r with axes ordered %r: the site axis is not the contracted one" % (dims_, order_)
+                        break
+                    for j_ in range(L):
+                        if (j_ // r_) % 2 == 0:
+                            per_site.setdefault(us[0], []).append(frozenset((j_, j_ + r_)))
+                    continue
                 if a[1] != T.app("index", base, spec):
                     earlier = [b_ for b_, _s, _v in steps if b_ != base] + [x.term]
                     if any(a[1] == T.app("index", b_, spec) for b_ in earlier):
